@@ -21,6 +21,7 @@ def handle (j : Json) : Except String Json := do
   | "validate" => hValidate j
   | "diff" => hDiff j
   | "walk" => hWalk j
+  | "subwalk" => hSubWalk j
   | "sync" => hSync j
   | "fault" => hFault j
   | "metaonly" => hMetaOnly j
